@@ -726,6 +726,10 @@ pub fn gen_thin_bodies(files: &BTreeMap<String, syn::File>, out: &mut String) {
                     None
                 }
             }
+            // a macro call as the whole body (`write!(..)`, `panic!(..);`)
+            Stmt::Macro(m) => {
+                Some(m.mac.to_token_stream().to_string().split_whitespace().collect::<Vec<_>>().join(" "))
+            }
             _ => None,
         }
     }
@@ -744,10 +748,7 @@ pub fn gen_thin_bodies(files: &BTreeMap<String, syn::File>, out: &mut String) {
             match it {
                 Item::Impl(im) => {
                     let st = im.self_ty.to_token_stream().to_string();
-                    let names_ga = im.trait_.as_ref().map(|t| t.1.to_token_stream().to_string().contains("GenericArray")).unwrap_or(false);
-                    if !st.contains("GenericArray") && !st.contains("ArrayBuilder") && !st.contains("ArrayConsumer") && !names_ga {
-                        continue;
-                    }
+                    // every impl of the crate's source files is listed (rows are looked up by header, so extra rows are harmless)
                     let header = match &im.trait_ {
                         Some((_, tr, _)) => format!("{} for {}", norm(tr.to_token_stream().to_string()), norm(st)),
                         None => norm(st),
@@ -758,6 +759,11 @@ pub fn gen_thin_bodies(files: &BTreeMap<String, syn::File>, out: &mut String) {
                                 rows.push(format!("(\"{}\", \"{}\", \"{}\", \"{}\")", fname, esc(&header), f.sig.ident, esc(&t)));
                             }
                         }
+                    }
+                }
+                Item::Fn(f) => {
+                    if let Some(t) = one_expr(&f.block) {
+                        rows.push(format!("(\"{}\", \"fn\", \"{}\", \"{}\")", fname, f.sig.ident, esc(&t)));
                     }
                 }
                 Item::Trait(tr) => {
